@@ -1206,7 +1206,7 @@ def convpipe_family(tier, seed):
             elif kind == "link_param":
                 items.append({"k": "link_param", "param": rnd.choice(cfg["params"] or ["extra"]), "dst": dst, "level": level})
             elif kind == "const":
-                items.append({"k": "const", "dst": dst, "value": rnd.choice([5, "s", None, True]), "level": level})
+                items.append({"k": "const", "dst": dst, "value": rnd.choice([5, "s", None, True, [1, 2], {"k": [1]}]), "level": level})
             elif kind == "const_factory":
                 items.append({"k": "const_factory", "dst": dst, "level": level})
             elif kind == "func":
@@ -1276,6 +1276,11 @@ def convpipe_family(tier, seed):
         {"src_fields": ["a", "b"], "dst_fields": [("a", False), ("d", True), ("z", True)], "params": ["extra"],
          "recipe": [{"k": "allow", "dst": "d", "level": "top"}, {"k": "allow", "dst": "z", "level": "top"},
                     {"k": "func", "dst": "d", "kwonly": ["b"], "pos": [], "level": "top"}, {"k": "link_param", "param": "extra", "dst": "z", "level": "top"}]},
+        # a mutable constant: every converted object gets its own copy (a display evaluated in the body)
+        {"src_fields": ["a"], "dst_fields": [("a", False), ("c", False)], "params": [],
+         "recipe": [{"k": "const", "dst": "c", "value": [1, 2], "level": "top"}]},
+        {"src_fields": ["a"], "dst_fields": [("a", False), ("c", False)], "params": [], "inner": {"src_fields": ["a"], "dst_fields": [("a", False), ("p", False)]},
+         "recipe": [{"k": "const", "dst": "c", "value": {"k": [1]}, "level": "top"}, {"k": "const", "dst": "p", "value": [[3]], "level": "inner"}]},
         # containers of the very same type on both sides are still converted element-wise (a same-type user coercer reaches the
         # elements; the result never holds the source's container)
         {"src_fields": ["a"], "dst_fields": [("a", False)], "params": [], "dict_field": True, "recipe": []},
@@ -1544,6 +1549,21 @@ def build_kind_model(kind, name, spec, extra_ns=None):
             lines.append("    " + req_t.format(n=n, t=t))
         elif d[0] == "kw":
             lines.append("    " + KW_ONLY_TEMPLATES.get(kind, req_t).format(n=n, t=t))
+        elif d[0] == "alias":
+            # a required field whose constructor PARAMETER has another name (pydantic alias); a plain required field elsewhere
+            if kind == "pydantic":
+                lines.append(f"    {n}: {t} = Field(alias={d[1]!r})")
+            else:
+                lines.append("    " + req_t.format(n=n, t=t))
+        elif d[0] == "ts":
+            # a default that needs the half-built object (attrs Factory(takes_self=True)): the loader cannot supply it and leaves
+            # the parameter out when the field is absent; the other kinds take the plain value
+            if dv_t is None:
+                return None
+            if kind == "attrs":
+                lines.append(f"    {n}: {t} = attr.Factory(lambda self: {d[1]}, takes_self=True)")
+            else:
+                lines.append("    " + dv_t.format(n=n, t=t, d=d[1]))
         elif d[0] == "v":
             if dv_t is None:
                 return None
@@ -1603,6 +1623,8 @@ def kinds_family(tier, seed):
         "kw_mid": [("a", "int", None), ("b", "str", ("kw", None)), ("c", "float", None)],
         # scalar and callable defaults that the sqlalchemy twin can express as column defaults
         "sa_defaults": [("code", "str", None), ("title", "str", ("v", "'x'")), ("n", "int", ("f", "make_n")), ("k", "int", ("v", "10"))],
+        # private-looking field whose default needs the instance (attrs: parameter `disc`, attribute and field id `_disc`)
+        "takes_self": [("price", "int", None), ("_disc", "int", ("ts", "0")), ("note", "str", ("ts", "'n'"))],
         # an annotation that cannot be resolved: every kind refuses the model, none guesses
         "unresolvable": [("a", "int", None), ("ref", "'MissingClass'", None)],
     }
@@ -1615,7 +1637,7 @@ def kinds_family(tier, seed):
         "skip": {"skip": ["c", "age", "d"]},
         "map_private": {"map": [("_rev", ("meta", ...))], "name_style": NameStyle.CAMEL},
     }
-    SPEC_EXCLUDES = {"private": {"namedtuple", "pydantic"}, "private_req": {"namedtuple", "pydantic"}}
+    SPEC_EXCLUDES = {"private": {"namedtuple", "pydantic"}, "private_req": {"namedtuple", "pydantic"}, "takes_self": {"namedtuple", "pydantic"}}
     def make_items():
         # never called by a correct pipeline (a factory runs per load); a tagged result exposes hoisting
         return ["made"]
@@ -1629,7 +1651,8 @@ def kinds_family(tier, seed):
     modes = [DebugTrail.ALL] if tier == "quick" else [DebugTrail.ALL, DebugTrail.FIRST, DebugTrail.DISABLE]
     # (private_req x as_list: TypedDict's alphabetical field order -- the C17 known finding -- meets the skipped private field;
     # the ordering finding is already reported on the other specs)
-    NM_EXCLUDES = {("private_req", "as_list")}
+    # (takes_self x omit: a default computed from the instance is not known to omit_default -- inherent to that kind)
+    NM_EXCLUDES = {("private_req", "as_list"), ("takes_self", "omit")}
     for sname, spec in specs.items():
         for nname, nm in nms.items():
             if (sname, nname) in NM_EXCLUDES:
@@ -1671,8 +1694,10 @@ def kinds_family(tier, seed):
     # converters between kinds
     from adaptix import P
     from adaptix._internal.conversion.facade.provider import allow_unlinked_optional
-    for sname in ("req2", "req_types", "snake_req", "skip_mid"):
+    for sname in ("req2", "req_types", "snake_req", "skip_mid", "aliased"):
         spec = specs.get(sname) or [("first_name", "str", None), ("last_name_", "str", None)]
+        if sname == "aliased":
+            spec = [("user_name", "str", ("alias", "userName")), ("n", "int", None)]
         src_spec = dst_spec = spec
         skipped = []
         if sname == "skip_mid":
@@ -1683,7 +1708,8 @@ def kinds_family(tier, seed):
         for ka in kinds:
             for kb in kinds:
                 rec = {"kind": "kinds_conv", "spec": sname, "fields": [[n, t, None] for n, t, d in dst_spec], "src_kind": ka, "dst_kind": kb,
-                       "skipped": skipped}
+                       "skipped": skipped,
+                       "param_of": {n: (d[1] if d is not None and d[0] == "alias" and kb == "pydantic" else n) for n, t, d in dst_spec}}
                 try:
                     A = build_kind_model(ka, "SrcM", src_spec)
                     B = build_kind_model(kb, "DstM", dst_spec)
@@ -1730,6 +1756,8 @@ def soundness_family(tier, seed):
         "@dataclass\nclass SrcLeaf:\n    v: str\n    children: List['SrcLeaf']\n"
         "@dataclass\nclass SrcMid:\n    v: int\n    children: List[SrcLeaf]\n"
         "@dataclass\nclass SrcRoot:\n    v: int\n    children: List[SrcMid]\n"
+        "type Box[T] = List[T]\ntype PairOf[T] = Tuple[T, T]\ntype IntList = List[int]\n"
+        "from typing import Annotated, Literal\n"
     )
     pairs = [
         ("int", "int", "as-is"), ("int", "str", "refuse"), ("bool", "int", "as-is"), ("int", "bool", "refuse"), ("MyInt", "int", "as-is"),
@@ -1761,6 +1789,15 @@ def soundness_family(tier, seed):
         ("Dict[str, int]", "OrderedDict[str, int]", "refuse"), ("Dict[str, int]", "DefaultDict[str, int]", "refuse"),
         ("Mapping[str, int]", "OrderedDict[str, int]", "refuse"), ("OrderedDict[str, int]", "OrderedDict[str, int]", "as-is"),
         ("OrderedDict[str, Inner]", "OrderedDict[str, InnerDTO]", "refuse"),
+        # PEP 695 aliases: the arguments of a parametrised alias are part of the type
+        ("Box[int]", "Box[int]", "accept"), ("Box[int]", "Box[str]", "refuse"), ("PairOf[int]", "PairOf[str]", "refuse"),
+        ("Annotated[Box[int], 'm']", "Box[str]", "refuse"), ("IntList", "IntList", "accept"), ("Optional[Box[int]]", "Optional[Box[str]]", "refuse"),
+        # constant-length tuples: the arity is part of the type
+        ("Tuple[int, str]", "Tuple[int]", "refuse"), ("Tuple[int]", "Tuple[int, str]", "refuse"), ("Tuple[()]", "Tuple[int]", "refuse"),
+        ("Optional[Tuple[int, str]]", "Optional[Tuple[int]]", "refuse"), ("List[Tuple[int, str]]", "List[Tuple[int]]", "refuse"),
+        # Literal: 0 / 1 are not False / True
+        ("Literal[1]", "Literal[True]", "refuse"), ("Literal[0, 1]", "Literal[False, True]", "refuse"), ("Literal[True]", "Literal[1, 2]", "refuse"),
+        ("Literal[1, 2]", "Literal[1, 2]", "accept"), ("Optional[Literal[0]]", "Optional[Literal[False]]", "refuse"),
         # recursive destination, a chain of different source models whose last link does not fit (v: str -> int at depth 3)
         ("SrcRoot", "DstNode", "refuse"),
     ]
